@@ -711,7 +711,7 @@ class LeastSquare:
             nodes0to1 = NodeSample.chebyshev(nptsinteg)
             integrator = IntegratorArray.chebyshev(nptsinteg)
         nodes0to1 = np.array(nodes0to1)
-        integrator = np.array(integrator)
+        integrator = np.array(integrator, dtype=numbtype)
 
         FF = np.zeros((oldnpts, oldnpts), dtype=numbtype)  # F*F
         GF = np.zeros((newnpts, oldnpts), dtype=numbtype)  # F*G
